@@ -389,7 +389,9 @@ def _job_roundtrip(job):
                     continue
                 if api in ("line", "line1") and any(len(w.get("content") or b"") > 100000 and b"\n" not in w["content"] for w in want if "nested" not in w):
                     continue        # one line longer than the reader's line limit: refusing it is the configured behaviour
-                for cuts in (cuts_for(body) if api in ("read", "line") or chunk == 64 else [(), tuple(range(1, len(body)))] if len(body) <= 400 else [()]):
+                many = len(spec[1] if spec[0] != "form" else spec[2]) > 10
+                for cuts in ([(), (len(body) // 2,), tuple(range(1, len(body), 97))] if many        # what is varied there is the number of parts
+                             else cuts_for(body) if api in ("read", "line") or chunk == 64 else [(), tuple(range(1, len(body)))] if len(body) <= 400 else [()]):
                     got = run_reader(loop, ctype, body, cuts, api, chunk or 8192)
                     part.count("executions")
                     part.count("transitions", len(cuts) + 1)
